@@ -128,6 +128,8 @@ def reference(case):
         if not in_domain:
             break
         v = apply_op(ref, op, kind, True)
+        if name in ('w', 'ro'):
+            v = None
         recs.append([['STOP'] if v is StopIteration else canon(v, text), ref.tell()])
     return in_domain, appending, recs
 
@@ -216,9 +218,9 @@ class C18(Property):
             yield c
         for c in self.mfr_exhaustive(3 if self.thorough else 2):
             yield c
-        for c in self.adversarial(rng, 60 if self.thorough else 6):
+        for c in self.adversarial(rng, 200 if self.thorough else 15):
             yield c
-        n = 60000 if self.thorough else 3500
+        n = 150000 if self.thorough else 7000
         for i in range(n):
             r = rng.random()
             if r < 0.2:
@@ -462,12 +464,14 @@ class C18(Property):
         saved = iu.READ_CHUNK_SIZE
         f = None
         try:
-            with time_limit(5):
+            with time_limit(self.case_limit()):
                 if text and case.get('chunk') is not None:
                     iu.READ_CHUNK_SIZE = case['chunk']
                 f = (iu.SpooledStringIO if text else iu.SpooledBytesIO)(max_size=case['ms'])
                 for op in case['ops']:
                     v = apply_op(f, op, kind, False)
+                    if op[0] in ('w', 'ro'):
+                        v = None        # what write() / rollover() return is not part of the statement
                     rec = ['STOP'] if v is StopIteration else canon(v, text)
                     out.append({'r': rec, 't': f.tell()})
                     self.stats['op:' + op[0]] = self.stats.get('op:' + op[0], 0) + 1
@@ -475,6 +479,7 @@ class C18(Property):
                     self.stats['rolled'] = self.stats.get('rolled', 0) + 1
         except CaseTimeout:
             out.append({'exc': 'CaseTimeout'})
+            self._timeouts = getattr(self, '_timeouts', 0) + 1
             self.stats['exc:CaseTimeout'] = self.stats.get('exc:CaseTimeout', 0) + 1
         except Exception as e:  # judged by the oracle
             out.append({'exc': exc_name(e), 'msg': str(e)[:160]})
@@ -488,12 +493,17 @@ class C18(Property):
                 pass
         return out
 
+    def case_limit(self):
+        """seconds allowed for one history: generous at first, short once the implementation has been seen to
+        hang (a mutated loop hangs on many histories; the run must still end)"""
+        return 4 if getattr(self, '_timeouts', 0) < 2 else 0.4
+
     def impl_mfr(self, case, iu):
         text = case['text']
         out = []
         members = []
         try:
-            with time_limit(5):
+            with time_limit(self.case_limit()):
                 for p in case['files']:
                     data = p if text else bytes.fromhex(p)
                     if case['mk'] == 'spooled':
@@ -510,7 +520,8 @@ class C18(Property):
                 mfr = iu.MultiFileReader(*members)
                 for op in case['ops']:
                     if op[0] == 's':
-                        v = mfr.seek(0)
+                        mfr.seek(0)
+                        v = None
                     elif op[0] == 'ra':
                         v = mfr.read()
                     else:
@@ -560,8 +571,6 @@ class C18(Property):
                 return self.fail('raises', 'op %d %r raised %s: %s (io reference returns %s)' % (
                     i, op, o['exc'], o.get('msg'), show(exp[i][0])), i, op, None, exp[i][0])
             want, want_tell = exp[i]
-            if op[0] == 'w' and o['r'] == ['N']:
-                want = ['N']       # boltons' write returns None, io's the count: either is accepted
             if o['r'] != want:
                 tag = ('lines' if op[0] in LINE_OPS else 'read' if op[0] in ('r', 'ra') else
                        'content' if op[0] == 'g' else 'position')
